@@ -113,6 +113,39 @@ def mutate_and_compare(rec, victim, witness_tree, rng, who):
                       {"tree": S.to_json(S.shadow(witness_tree)), "summary": f"mutating the {who} changed the other tree '{S.text_of(witness_tree)}'"})
 
 
+def retry_after_recursion_error(rec):
+    """a clone that fails for lack of stack (a very deep tree under the default recursion limit)
+    must leave nothing behind: asked again with more stack, the same tree -- and its parts, and
+    other trees -- clone as ever (the clone monitor decides those calls)"""
+    import sys
+
+    old = sys.getrecursionlimit()
+    for terms in (700, 900):
+        root = D.parse(" + ".join(f"{(i % 7) + 1}{'xyz'[i % 3]}" for i in range(terms)))
+        failed = False
+        sys.setrecursionlimit(1000)
+        try:
+            try:
+                root.clone()
+            except RecursionError:
+                failed = True
+        finally:
+            sys.setrecursionlimit(old)
+        rec.arm("clone:retry-after-recursion-error" if failed else "clone:deep-clone-did-not-fail")
+        rec.ev()
+        for what, fn in (("the same tree", lambda: root.clone()), ("a part of it", lambda: root.left.left.clone()),
+                         ("clone_from_root via an inner node", lambda: root.left.right.clone_from_root()), ("another tree", lambda: D.parse("2x + 3").clone())):
+            try:
+                fn()
+            except RecursionError:
+                rec.skip("clone: deep retry beyond the monitor's own recursion budget")
+            except Exception as e:
+                rec.violation("C13", "clone/raises-after-an-earlier-failure", "clone raised on a sound tree after an earlier clone had failed for lack of stack",
+                              {"deep_retry": True, "summary": f"a sum of {terms} terms: clone() under the default recursion limit raised RecursionError; with the limit raised, "
+                               f"cloning {what} raised {type(e).__name__}: {str(e)[:80]}"})
+                break
+
+
 def drive_tree(rec, root, rng, expr=True):
     nodes = S.nodes_preorder(root)
     # clone of the whole tree and of a few subtrees
@@ -203,6 +236,8 @@ def run(rec, cfg):
     rng = cfg.rng("c13")
     rules = MR.rule_instances()
     corp = WT.corpus()
+    if cfg.shard == 3 % cfg.nshards:
+        retry_after_recursion_error(rec)
     if cfg.shard == 0 or True:
         for t in constructed(rng):
             rec.arm("start:constructed")
@@ -257,6 +292,10 @@ def run(rec, cfg):
 
 
 def replay(rec, cfg, w):
+    if w.get("deep_retry"):
+        MC.attach_clone("C13")
+        retry_after_recursion_error(rec)
+        return
     MC.attach_clone("C13")
     root = S.build(S.from_json(w["tree"]))
     ids = w.get("ids_preorder")
